@@ -51,7 +51,11 @@ impl HolSpec {
     }
 }
 
-pub const SYNTHETIC: [&str; 6] = ["sparse", "dense", "runs", "edges", "far", "one"];
+// NOTE: a CompactCalendar stores one entry per year between its first and last date and
+// `first_after` walks them one by one, so calendars spanning thousands of years make every hint
+// of a holiday selector cost thousands of steps. The synthetic calendars therefore stay within
+// ~150 years each; both ends of the supported range get their own calendar.
+pub const SYNTHETIC: [&str; 8] = ["sparse", "dense", "runs", "edges_low", "edges_high", "far_low", "far_high", "one"];
 pub const COUNTRIES: [&str; 12] = ["FR", "US", "DE", "JP", "GB", "DK", "GL", "IE", "MX", "NL", "BR", "AU"];
 
 fn d(y: i32, m: u32, dd: u32) -> Option<NaiveDate> {
@@ -105,8 +109,9 @@ fn synthetic(name: &str) -> (CompactCalendar, CompactCalendar) {
                 }
             }
         }
-        "edges" => {
-            for y in [1900, 1901, 2000, 2024, 9998, 9999] {
+        "edges_low" | "edges_high" => {
+            let years: &[i32] = if name == "edges_low" { &[1900, 1901, 2000, 2024] } else { &[9997, 9998, 9999] };
+            for &y in years {
                 for (m, dd) in [(1, 1), (1, 2), (12, 30), (12, 31), (2, 28), (2, 29), (3, 1)] {
                     if let Some(x) = d(y, m, dd) {
                         p.insert(x);
@@ -115,12 +120,19 @@ fn synthetic(name: &str) -> (CompactCalendar, CompactCalendar) {
                 }
             }
         }
-        "far" => {
-            // dates outside the supported range 1900..9999 and a few inside
-            for (y, m, dd) in [(1899, 12, 31), (1899, 12, 25), (1850, 7, 4), (10000, 1, 1), (10000, 1, 2), (2024, 5, 1), (9999, 12, 31), (1900, 1, 1)] {
+        "far_low" => {
+            // dates before the supported range 1900..9999 and a few inside
+            for (y, m, dd) in [(1899, 12, 31), (1899, 12, 25), (1850, 7, 4), (1900, 1, 1), (1900, 1, 2), (1901, 5, 1)] {
                 p.insert(d(y, m, dd).unwrap());
             }
             s.insert(d(1899, 12, 31).unwrap());
+            s.insert(d(1900, 1, 1).unwrap());
+        }
+        "far_high" => {
+            for (y, m, dd) in [(10000, 1, 1), (10000, 1, 2), (10050, 7, 4), (9999, 12, 31), (9999, 12, 30), (9998, 5, 1)] {
+                p.insert(d(y, m, dd).unwrap());
+            }
+            s.insert(d(9999, 12, 31).unwrap());
             s.insert(d(10000, 1, 1).unwrap());
         }
         _ => {
